@@ -142,6 +142,9 @@ mod utils;
 mod errors;
 mod execution;
 
+#[cfg(feature = "verif-hooks")]
+pub mod verif;
+
 pub use errors::PriceLevelError;
 pub use execution::{MatchResult, Transaction};
 pub use orders::DEFAULT_RESERVE_REPLENISH_AMOUNT;
